@@ -49,7 +49,7 @@ def main():
 
 
 def _run(d, props, seeds, tier, scratch):
-    env_prefix = f'PYTHONPATH={REPO} ' if scratch else ''
+    env_prefix = (f'PYTHONPATH={REPO} ' if scratch else '') + 'VERIF_EVIDENCE_DIR=/tmp/seeded_evidence '
     demo = os.path.join(d, 'demo.py')
     r0 = sh(f'cd {REPO} && PYTHONPATH={REPO} timeout 300 /venv/bin/python {demo}')
     print(f'demo on clean tree: exit {r0.returncode}')
